@@ -201,9 +201,10 @@ def impl_cat_class(msg):
     return None
 
 
-def compare_full(projects, opts=""):
+def compare_full(projects, opts="", keep_impl=False):
     """full pipeline: returns list of records dict(k, kind, impl, model) where kind in
-    same | skel-diff | verdict-diff | err-diff | library (not the model's to decide) | dup-keys"""
+    same | skel-diff | verdict-diff | err-diff | library (not the model's to decide) | dup-keys.
+    keep_impl: also keep the complete output lines in rec["impl_out"] / rec["model_out"]"""
     o = (opts + "," if opts else "") + "stage=full"
     lines = [P.run_line(o, pj) for pj in projects]
     impl = C.run_sharded("harness", "fn", [P.run_line(opts or "-", pj) for pj in projects])
@@ -213,6 +214,9 @@ def compare_full(projects, opts=""):
         si, di = P.parse(i)
         sm, dm = P.parse(m)
         rec = {"k": k, "impl": i[:300], "model": m[:300]}
+        if keep_impl:
+            rec["impl_out"] = i
+            rec["model_out"] = m
         mk = dm.get("kind", "") if sm == "err" else ""
         if sm == "err" and mk.startswith("msg:library"):
             rec["kind"] = "library"
